@@ -8,9 +8,11 @@ package main
 import (
 	"encoding/json"
 	"flag"
+	"fmt"
 	"os"
 	"reflect"
 	"sort"
+	"strings"
 
 	"github.com/mfcochauxlaberge/jsonapi"
 )
@@ -335,6 +337,8 @@ func normDefs(a map[string]jsonapi.Attr, r map[string]jsonapi.Rel) [2]any {
 }
 
 // projectOthers: every live object but h, by exposed definitions
+var makesObject = map[string]bool{"Copy": true, "NewLike": true, "TypeCopy": true, "DerivedNew": true}
+
 func (w *rWorld) projectOthers(h int) []any {
 	var out []any
 	for i, o := range w.objs {
@@ -489,18 +493,39 @@ func resourceMain(args []string) {
 	stt := newStats()
 	stt.Exhaustive = true
 	if *sample > 0 && *sample < len(hists) {
-		// the histories of the small seeds (a type without any field) are few: they are all kept
+		// the histories of the small seeds (a type without any field) are few: they are all kept; the
+		// others are sampled class by class - the class of a history is the set of operations in it that
+		// make a new object - so that the rare classes (a resource made by New() of another) are never
+		// lost to the size of the common ones
 		var rare, rest [][]rOp
+		classes := map[string][][]rOp{}
 		for _, h := range hists {
 			if len(h) > 0 && h[0].TName == "rt0" {
 				rare = append(rare, h)
-			} else {
-				rest = append(rest, h)
+				continue
 			}
+			made := map[string]bool{}
+			for _, op := range h {
+				switch op.Op {
+				case "Copy", "NewLike", "TypeCopy", "DerivedNew":
+					made[op.Op] = true
+				}
+			}
+			k := strings.Join(sortedKeys(made), "+")
+			classes[k] = append(classes[k], h)
 		}
-		rng.Shuffle(len(rest), func(i, j int) { rest[i], rest[j] = rest[j], rest[i] })
-		if *sample < len(rest) {
-			rest = rest[:*sample]
+		total := len(hists) - len(rare)
+		for _, k := range sortedKeys(classes) {
+			hs := classes[k]
+			rng.Shuffle(len(hs), func(i, j int) { hs[i], hs[j] = hs[j], hs[i] })
+			quota := *sample * len(hs) / total
+			if quota < 12 {
+				quota = 12
+			}
+			if quota > len(hs) {
+				quota = len(hs)
+			}
+			rest = append(rest, hs[:quota]...)
 		}
 		hists = append(rest, rare...)
 		stt.Exhaustive = false
@@ -536,7 +561,33 @@ func resourceMain(args []string) {
 		for k := 0; k < *variants; k++ {
 			v := variant()
 			for _, op := range alpha {
-				emit(rCase{Fam: "resource", Kind: "step", Hist: h, Op: op, Var: v, Seed: *seed})
+				ev, ok := emit(rCase{Fam: "resource", Kind: "step", Hist: h, Op: op, Var: v, Seed: *seed})
+				// A state of the model is reached by many histories and TLC hands over one of them, rarely one
+				// in which an object was made out of another (two objects made one by one look the same).
+				// What was just made is therefore exercised on the spot: the type of each object is edited,
+				// and the source and the new object gain, lose and overwrite a field, the others being watched.
+				if !ok || ev.Ret != "ok" || !makesObject[op.Op] {
+					continue
+				}
+				h2 := append(append([]rOp{}, h...), op)
+				seen := map[string]bool{}
+				for _, op2 := range alpha {
+					switch op2.Op {
+					case "TypeEdit":
+					case "AddField", "RemoveField", "MutSlice":
+						if op2.H != op.H && op2.H != len(ev.Post) {
+							continue
+						}
+					default:
+						continue
+					}
+					if k := fmt.Sprint(op2.Op, op2.H); !seen[k] {
+						seen[k] = true
+						if _, ok := emit(rCase{Fam: "resource", Kind: "step", Hist: h2, Op: op2, Var: v, Seed: *seed}); ok {
+							stt.class("after-making:" + op.Op)
+						}
+					}
+				}
 			}
 		}
 	}
